@@ -25,7 +25,7 @@ from pyoda_time import CalendarSystem, LocalDate, LocalDateTime, LocalTime, Offs
 from vf.core.evidence import Acc, exc_origin
 from vf.core.par import pmap
 from vf.models import intarith as M
-from vf.models.valbind import cal_range, date_at, day_of, private_ok
+from vf.models.valbind import cal_range, date_at, day_of, make_kwf, private_ok
 
 LEVEL = "model_checking"
 NSD = M.NS_DAY
@@ -98,7 +98,54 @@ HUGE_K = (10 ** 15, 10 ** 21, 10 ** 27)
 FULL_CALS = ("ISO", "Hebrew Civil", "Badi")      # calendars given the full period list in the quick tier
 
 
-def amounts(unit, t=None, rich=True):
+KW_NAMES = {"LocalTime.add": ("time", "period"), "LocalTime.plus": ("period",), "LocalTime.max": ("x", "y"), "LocalTime.min": ("x", "y"),
+            "LocalDateTime.add": ("local_date_time", "period"), "LocalDateTime.plus": ("period",), "LocalDateTime.max": ("x", "y"),
+            "LocalDateTime.min": ("x", "y")}
+for _u in ("hours", "minutes", "seconds", "milliseconds", "microseconds", "ticks", "nanoseconds"):
+    KW_NAMES["LocalTime.plus_" + _u] = (_u,)
+    if _u != "microseconds":
+        KW_NAMES["LocalDateTime.plus_" + _u] = (_u,)
+        KW_NAMES["Period.from_" + _u] = (_u,)
+kwf = make_kwf(KW_NAMES, {"LocalTime": LocalTime, "LocalDateTime": LocalDateTime, "Period": Period})
+
+S = M.show          # text of an int of any size (never trips the int->str digit limit)
+E = M.enc           # JSON-safe form of an int of any size
+BIG10 = 10 ** M.STR_LIMIT_POW10      # more decimal digits than sys.get_int_max_str_digits(): text conversion of it fails
+
+
+class Lazy:
+    """text built only when it is printed (violation messages)"""
+    __slots__ = ("f",)
+
+    def __init__(self, f):
+        self.f = f
+
+    def __str__(self):
+        return self.f()
+
+
+def comp_txt(comp):
+    return "{%s}" % ", ".join("%s: %s" % (k, S(v)) for k, v in comp.items())
+
+
+def comp_enc(comp):
+    return {k: E(v) for k, v in comp.items()}
+
+
+def wrap_days(full):
+    """whole-day counts (k*2^32 + j) and (k*2^64 + j): a carry that is reduced modulo a machine word lands j days away"""
+    ks = (1, -1, 2, -2) if full else (1, -2)
+    js = (0, 1, -1, 400, -400) if full else (0, -1, 400)
+    return [k * w + j for w in (2 ** 32, 2 ** 64) for k in ks for j in js]
+
+
+def wrap_amounts(unit, full):
+    upd = NSD // M.UNIT_NS[unit]
+    rs = (0, 1, -1) if full else (0, 1)
+    return [d * upd + r for d in wrap_days(full) for r in rs]
+
+
+def amounts(unit, t=None, rich=True, ext=False):
     """signed amounts of `unit`: small, around whole multiples of a day (large and within +/-1 unit), powers of ten,
     beyond 2^63 / 2^64, and (when t is given) the amounts that land exactly on midnight from t"""
     u = M.UNIT_NS[unit]
@@ -120,6 +167,16 @@ def amounts(unit, t=None, rich=True):
             for d in (-1, 0, 1):
                 v.add(k * upd + d)
                 v.add(-(k * upd + d))
+    if ext:
+        # numeric-tower boundaries: C int / double mantissa / beyond-double ints / beyond the int->str digit limit,
+        # and whole-day counts that are j days modulo 2^32 / 2^64 (ext == "full": the complete k, j, r grid)
+        v.update(M.tower(False))
+        for b in (2 ** 31, 2 ** 53, 2 ** 1024):
+            v.update((b + 1, b - 1, -b - 1, -b + 1))
+        for d in (-1, 0, 1):
+            v.add(BIG10 + d)
+            v.add(-(BIG10 + d))
+        v.update(wrap_amounts(unit, ext == "full"))
     if t is not None:
         q, r = divmod(t, u)
         back = -q                      # lands on (or just after) midnight going backwards
@@ -129,13 +186,34 @@ def amounts(unit, t=None, rich=True):
     return sorted(v, key=lambda x: (abs(x), x))
 
 
+_P4000 = 10 ** 4000
+_W64, _W32 = 2 ** 64, 2 ** 32
+
+
+def carry_class(total_ns):
+    """'' or a tag when the whole-day carry of total_ns is (a) beyond the int->str digit limit, (b) within 400 days of a multiple
+    of 2^32 / 2^64 (a carry reduced modulo a machine word would land inside the calendar)"""
+    if -_W32 // 2 * NSD < total_ns < _W32 // 2 * NSD:
+        return ""
+    d = M.tdiv(total_ns, NSD)
+    if abs(d) >= _P4000:
+        return "str-limit"
+    if True:
+        for w, name in ((_W64, "2^64"), (_W32, "2^32")):
+            r = d % w
+            if min(r, w - r) <= 400:
+                return "carry-wraps-" + name
+    return ""
+
+
 def acls(n, unit, t):
     """input class of an amount for violation keys: sign, size class, and whether the exact result is midnight / wraps"""
     u = M.UNIT_NS[unit]
     total = t + n * u
     size = "zero" if n == 0 else ("lt-day" if abs(n * u) < NSD else ("eq-day" if abs(n * u) == NSD else ("gt-2^63" if abs(n) >= 2 ** 63 else "gt-day")))
     land = "midnight" if total % NSD == 0 else ("same-day" if 0 <= total < NSD else "carry")
-    return "%s,%s,%s" % ("neg" if n < 0 else "pos", size, land)
+    cc = carry_class(n * u)
+    return "%s,%s,%s" % ("neg" if n < 0 else "pos", size + ("," + cc if cc else ""), land)
 
 
 # ------------------------------------------------------------------------------------------------ LocalTime accessors
@@ -291,6 +369,10 @@ def w_factories(_):
 
 # ------------------------------------------------------------------------------------------------ LocalTime arithmetic
 def check_lt(acc, r, exp, key, what, case, py=None):
+    if callable(py) and (not isinstance(r, LocalTime) or r.nanosecond_of_day != exp):
+        py = py()
+    elif callable(py):
+        py = None
     if not isinstance(r, LocalTime):
         acc.violation(key + "/type", "%s returned %r" % (what, r), case, py)
         return False
@@ -305,20 +387,20 @@ def check_lt(acc, r, exp, key, what, case, py=None):
 
 
 def _py_time_plus(t, unit, n):
-    return ("from pyoda_time import LocalTime\n\ndef test_replay():\n    t, n, unit_ns = %d, %d, %d\n"
+    return ("from pyoda_time import LocalTime\n\ndef test_replay():\n    t, n, unit_ns = %d, %s, %d\n"
             "    r = LocalTime.from_nanoseconds_since_midnight(t).plus_%s(n)\n    assert r.nanosecond_of_day == (t + n * unit_ns) %% (86400 * 10**9)\n" % (
-                t, n, M.UNIT_NS[unit], unit))
+                t, S(n), M.UNIT_NS[unit], unit))
 
 
-def check_time_plus(acc, t, unit, n, new=None):
+def check_time_plus(acc, t, unit, n, new=None, kw=True):
     lt = mk_time(t)
     u = M.UNIT_NS[unit]
     exp = M.time_plus(t, n, u)
     cls = acls(n, unit, t)
-    case = {"kind": "time-plus", "t": t, "unit": unit, "n": n}
+    case = {"kind": "time-plus", "t": t, "unit": unit, "n": E(n)}
     acc.count(transitions=1, evaluations=1)
     r = getattr(lt, "plus_" + unit)(n)
-    ok = check_lt(acc, r, exp, "C10/time/plus_%s/%s" % (unit, cls), "%d ns .plus_%s(%d)" % (t, unit, n), case, _py_time_plus(t, unit, n))
+    ok = check_lt(acc, r, exp, "C10/time/plus_%s/%s" % (unit, cls), "%d ns .plus_%s(%s)" % (t, unit, S(n)), case, lambda: _py_time_plus(t, unit, n))
     if ok and new is not None:
         new.add(exp)
     if not (0 <= t + n * u < NSD) or exp == 0:
@@ -327,14 +409,30 @@ def check_time_plus(acc, t, unit, n, new=None):
     if unit == "microseconds":
         return
     p = getattr(Period, "from_" + unit)(n)
-    for name, fn, e in (("add", lambda: lt + p, exp), ("plus", lambda: lt.plus(p), exp), ("add-static", lambda: LocalTime.add(lt, p), exp),
-                        ("sub", lambda: lt - p, M.time_plus(t, -n, u)), ("minus", lambda: lt.minus(p), M.time_plus(t, -n, u)),
-                        ("subtract-static", lambda: LocalTime.subtract(lt, p), M.time_plus(t, -n, u))):
+    back = M.time_plus(t, -n, u)
+    routes = [("add", lambda: lt + p, exp), ("plus", lambda: lt.plus(p), exp), ("add-static", lambda: LocalTime.add(lt, p), exp),
+              ("sub", lambda: lt - p, back), ("minus", lambda: lt.minus(p), back), ("subtract-static", lambda: LocalTime.subtract(lt, p), back)]
+    if kw:
+        routes += [("add-static(keyword)", f, exp) for f in kwf(acc, "LocalTime.add", lt, p)]
+        routes += [("plus(keyword)", f, exp) for f in kwf(acc, "LocalTime.plus", p, obj=lt)]
+    for name, fn, e in routes:
         acc.count(transitions=1, evaluations=1)
-        r = fn()
-        ok = check_lt(acc, r, e, "C10/time/period-%s/%s/%s" % ("plus" if e is exp else "minus", unit, cls), "%d ns %s Period(%s=%d)" % (t, name, unit, n), dict(case, via=name))
+        key = "C10/time/period-%s/%s/%s" % ("plus" if e is exp else "minus", unit, cls)
+        c2 = dict(case, via=name)
+        try:
+            r = fn()
+        except Exception as ex:  # noqa: BLE001
+            if exc_origin(ex) == "harness":
+                raise
+            acc.lib_exception(key, ex, c2)
+            continue
+        ok = check_lt(acc, r, e, key, "%d ns %s Period(%s=%s)" % (t, name, unit, S(n)), c2)
         if ok and new is not None:
             new.add(e)
+    # the unit method itself by keyword
+    for f in (kwf(acc, "LocalTime.plus_" + unit, n, obj=lt) if kw else ()):
+        acc.count(transitions=1, evaluations=1)
+        check_lt(acc, f(), exp, "C10/time/plus_%s/%s" % (unit, cls), "%d ns .plus_%s(%s=%s)" % (t, unit, unit, S(n)), dict(case, via="keyword"))
 
 
 MIX = (("hours", "nanoseconds"), ("minutes", "ticks"), ("seconds", "milliseconds"), ("hours", "minutes"), ("ticks", "nanoseconds"), ("milliseconds", "nanoseconds"))
@@ -345,11 +443,11 @@ def check_time_mixed(acc, t, ua, na, ub, nb):
     lt = mk_time(t)
     p = getattr(Period, "from_" + ua)(na) + getattr(Period, "from_" + ub)(nb)
     tot = na * M.UNIT_NS[ua] + nb * M.UNIT_NS[ub]
-    case = {"kind": "time-mixed", "t": t, "ua": ua, "na": na, "ub": ub, "nb": nb}
+    case = {"kind": "time-mixed", "t": t, "ua": ua, "na": E(na), "ub": ub, "nb": E(nb)}
     cls = "%s+%s;%s%s" % (ua, ub, "neg" if na < 0 else "pos", "neg" if nb < 0 else "pos")
     acc.count(transitions=2, evaluations=2)
-    check_lt(acc, lt + p, (t + tot) % NSD, "C10/time/period-mixed-add/" + cls, "%d ns + Period(%s=%d,%s=%d)" % (t, ua, na, ub, nb), case)
-    check_lt(acc, lt - p, (t - tot) % NSD, "C10/time/period-mixed-sub/" + cls, "%d ns - Period(%s=%d,%s=%d)" % (t, ua, na, ub, nb), case)
+    check_lt(acc, lt + p, (t + tot) % NSD, "C10/time/period-mixed-add/" + cls, "%d ns + Period(%s=%s,%s=%s)" % (t, ua, S(na), ub, S(nb)), case)
+    check_lt(acc, lt - p, (t - tot) % NSD, "C10/time/period-mixed-sub/" + cls, "%d ns - Period(%s=%s,%s=%s)" % (t, ua, S(na), ub, S(nb)), case)
     if not (0 <= t + tot < NSD):
         acc.count(nontrivial=1)
 
@@ -362,8 +460,9 @@ def w_time_plus(job):
     for t in times:
         acc.count(states=1)
         for unit in TIME_UNITS:
-            for n in amounts(unit, t, rich):
-                guarded(acc, "C10/time/plus_" + unit, {"kind": "time-plus", "t": t, "unit": unit, "n": n}, check_time_plus, t, unit, n, new)
+            for idx, n in enumerate(amounts(unit, t, rich, ext=rich)):
+                # keyword spellings on every third amount of the (magnitude-ordered) list: all size classes, a third of the cost
+                guarded(acc, "C10/time/plus_" + unit, {"kind": "time-plus", "t": t, "unit": unit, "n": E(n)}, check_time_plus, t, unit, n, new, kw=(idx % 3 == 0))
         if mixed:
             for ua, ub in MIX:
                 A = amounts(ua, t, False)
@@ -371,12 +470,12 @@ def w_time_plus(job):
                 for na in A:
                     for nb in B:
                         if na and nb:
-                            guarded(acc, "C10/time/period-mixed", {"kind": "time-mixed", "t": t, "ua": ua, "na": na, "ub": ub, "nb": nb},
+                            guarded(acc, "C10/time/period-mixed", {"kind": "time-mixed", "t": t, "ua": ua, "na": E(na), "ub": ub, "nb": E(nb)},
                                     check_time_mixed, t, ua, na, ub, nb)
-            k = 10 ** 21
-            for ua, ub in MIX:
-                guarded(acc, "C10/time/period-mixed", {"kind": "time-mixed", "t": t}, check_time_mixed, t, ua, k * (NSD // M.UNIT_NS[ua]),
-                        ub, -(k * (NSD // M.UNIT_NS[ub]) - 1))
+            for k in (10 ** 21, 2 ** 64, BIG10):
+                for ua, ub in MIX:
+                    guarded(acc, "C10/time/period-mixed", {"kind": "time-mixed", "t": t}, check_time_mixed, t, ua, k * (NSD // M.UNIT_NS[ua]),
+                            ub, -(k * (NSD // M.UNIT_NS[ub]) - 1))
     if times:
         acc.sample({"time": times[0], "units": list(TIME_UNITS), "amounts_per_unit": len(amounts("ticks", times[0], rich))})
     return acc, sorted(new)
@@ -392,17 +491,21 @@ def obs_ldt(r):
 
 
 def _py_ldt(cal_id, day, t, call, ed, en, in_range):
+    if callable(call):
+        call = call()
     return ("from pyoda_time import *\n\ndef test_replay():\n    cal = CalendarSystem.for_id(%r)\n"
             "    x = LocalDate(1970, 1, 1).plus_days(%d).with_calendar(cal).at(LocalTime.from_nanoseconds_since_midnight(%d))\n"
             "    in_range = %r\n    try:\n        r = %s\n    except Exception:\n        assert not in_range\n        return\n"
             "    assert in_range, 'result outside the calendar was returned'\n"
-            "    assert Period.days_between(LocalDate(1970, 1, 1), r.date.with_calendar(CalendarSystem.iso)) == %d\n"
-            "    assert r.nanosecond_of_day == %d and r.calendar == cal\n" % (cal_id, day, t, in_range, call, ed, en))
+            "    assert Period.days_between(LocalDate(1970, 1, 1), r.date.with_calendar(CalendarSystem.iso)) == %s\n"
+            "    assert r.nanosecond_of_day == %d and r.calendar == cal\n" % (cal_id, day, t, in_range, call, S(ed), en))
 
 
 def expect_ldt(acc, fn, cal_id, day, t, total, key, what, case, call=None, mid_ok=True, day0=None, flat=False):
     """fn() must give divmod(day*NSD + t + total) in the same calendar, or raise when that day is outside the calendar"""
     lo, hi, consistent = cal_range(cal_id)
+    if callable(what):
+        what = Lazy(what)
     ed, en = M.ldt_plus(day, t, total)
     inr = lo <= ed <= hi
     acc.count(transitions=1, evaluations=1)
@@ -413,8 +516,8 @@ def expect_ldt(acc, fn, cal_id, day, t, total, key, what, case, call=None, mid_o
             raise
         if inr and mid_ok:
             py = _py_ldt(cal_id, day0 if day0 is not None else day, t, call, ed, en, inr) if call else None
-            acc.violation(key if flat else "%s/raises-in-range/%s" % (key, type(e).__name__), "%s raised %s: %s; exact result day %d, ns %d is inside the calendar" % (
-                what, type(e).__name__, str(e)[:100], ed, en), case, py)
+            acc.violation(key if flat else "%s/raises-in-range/%s" % (key, type(e).__name__), "%s raised %s: %s; exact result day %s, ns %d is inside the calendar" % (
+                what, type(e).__name__, str(e)[:100], S(ed), en), case, py)
         else:
             acc.outcome("raise:" + type(e).__name__)
         return None
@@ -422,7 +525,7 @@ def expect_ldt(acc, fn, cal_id, day, t, total, key, what, case, call=None, mid_o
     if not inr:
         if consistent:
             py = _py_ldt(cal_id, day0 if day0 is not None else day, t, call, ed, en, inr) if call else None
-            acc.violation(key if flat else key + "/no-raise", "%s: exact result day %d is outside the calendar [%d, %d] but %r was returned" % (what, ed, lo, hi, obs_ldt_safe(r)), case, py)
+            acc.violation(key if flat else key + "/no-raise", "%s: exact result day %s is outside the calendar [%d, %d] but %r was returned" % (what, S(ed), lo, hi, obs_ldt_safe(r)), case, py)
         else:
             acc.outcome("beyond-public-range(private day range differs: C01)")
         return None
@@ -433,7 +536,7 @@ def expect_ldt(acc, fn, cal_id, day, t, total, key, what, case, call=None, mid_o
     g = obs_ldt(r)
     if g != (ed, en, cal_id):
         py = _py_ldt(cal_id, day0 if day0 is not None else day, t, call, ed, en, inr) if call else None
-        acc.violation(key if flat else key + "/value", "%s gives (day %d, ns %d, %s), exact (day %d, ns %d, %s)" % (what, g[0], g[1], g[2], ed, en, cal_id), case, py)
+        acc.violation(key if flat else key + "/value", "%s gives (day %d, ns %d, %s), exact (day %s, ns %d, %s)" % (what, g[0], g[1], g[2], S(ed), en, cal_id), case, py)
         return None
     return r
 
@@ -451,14 +554,18 @@ def dcls(cal_id, day):
     return "range-start" if day <= lo + 1 else ("range-end" if day >= hi - 1 else "mid")
 
 
-def check_ldt_plus(acc, cal_id, day, t, unit, n):
+def check_ldt_plus(acc, cal_id, day, t, unit, n, kw=False):
     cal = CalendarSystem.for_id(cal_id)
     x = mk_ldt(cal, day, t)
     u = M.UNIT_NS[unit]
-    case = {"kind": "ldt-plus", "cal": cal_id, "day": day, "t": t, "unit": unit, "n": n}
+    case = {"kind": "ldt-plus", "cal": cal_id, "day": day, "t": t, "unit": unit, "n": E(n)}
     key = "C10/ldt/plus_%s/%s;%s" % (unit, dcls(cal_id, day), acls(n, unit, t))
-    expect_ldt(acc, lambda: getattr(x, "plus_" + unit)(n), cal_id, day, t, n * u, key, "%s day %d + %d ns .plus_%s(%d)" % (cal_id, day, t, unit, n), case,
-               call="x.plus_%s(%d)" % (unit, n))
+    expect_ldt(acc, lambda: getattr(x, "plus_" + unit)(n), cal_id, day, t, n * u, key, lambda: "%s day %d + %d ns .plus_%s(%s)" % (cal_id, day, t, unit, S(n)), case,
+               call=lambda: "x.plus_%s(%s)" % (unit, S(n)))
+    if kw:
+        for f in kwf(acc, "LocalDateTime.plus_" + unit, n, obj=x):
+            expect_ldt(acc, f, cal_id, day, t, n * u, key + ",keyword", lambda: "%s day %d + %d ns .plus_%s(%s=%s)" % (cal_id, day, t, unit, unit, S(n)), case,
+                       call=lambda: "x.plus_%s(%s=%s)" % (unit, unit, S(n)))
     if not (0 <= t + n * u < NSD):
         acc.count(nontrivial=1)
 
@@ -467,13 +574,22 @@ def check_ldt_plus(acc, cal_id, day, t, unit, n):
 def w_ldt_plus(job):
     cal_id, days, times, rich = job
     acc = Acc()
+    first_mid = None
     for day in days:
+        mid = dcls(cal_id, day) == "mid"
+        if mid and first_mid is None:
+            first_mid = day
         for t in times:
             acc.count(states=1)
+            # numeric-tower / word-wrap / beyond-str-limit amounts: on dates with room on both sides (a wrapped day carry lands inside
+            # the calendar there) at the first and last instant of the day; the complete (k, j, r) wrap grid once per calendar
+            ext = False
+            if mid and t in (0, NSD - 1):
+                ext = "full" if (day == first_mid and t == 0) else True
             for unit in LDT_UNITS:
-                for n in amounts(unit, t, rich):
-                    guarded(acc, "C10/ldt/plus_" + unit, {"kind": "ldt-plus", "cal": cal_id, "day": day, "t": t, "unit": unit, "n": n},
-                            check_ldt_plus, cal_id, day, t, unit, n)
+                for idx, n in enumerate(amounts(unit, t, rich, ext=ext)):
+                    guarded(acc, "C10/ldt/plus_" + unit, {"kind": "ldt-plus", "cal": cal_id, "day": day, "t": t, "unit": unit, "n": E(n)},
+                            check_ldt_plus, cal_id, day, t, unit, n, kw=(t == 0 and idx % 4 == 0))
     acc.sample({"calendar": cal_id, "days": days[:4], "times": list(times)[:3]})
     return acc, []
 
@@ -489,7 +605,7 @@ def build_period(comp):
     return p if p is not None else Period.zero
 
 
-def period_list(t, level):
+def period_list(t, level, mid=False):
     """list of component dicts.  level 'basic': every single non-zero time component crossing midnight / spanning whole days,
     a component against whole days of the opposite sign (small and beyond 2^64), date units with time units;
     'full' adds more magnitudes and mixed-sign pairs of time components; 'thorough' adds further magnitudes."""
@@ -522,6 +638,22 @@ def period_list(t, level):
             a, b = NSD // M.UNIT_NS[ua], NSD // M.UNIT_NS[ub]
             for na, nb in ((a, -b), (-a, b), (a, -b - 1), (-a, b + 1), (1, -1), (2 * a + 1, -2 * b), (10 ** 21 * a, -(10 ** 21 * b - 1)), (-(10 ** 27) * a, 10 ** 27 * b + 1)):
                 out.append({ua: na, ub: nb})
+    if mid:
+        # dates with room on both sides: a time component worth (k*2^32 + j) or (k*2^64 + j) whole days (+/- one unit) must raise,
+        # amounts beyond the int->str digit limit must raise alone and cancel exactly against whole days
+        for unit in LDT_UNITS:
+            upd = NSD // M.UNIT_NS[unit]
+            if full and t in (0, NSD - 1):
+                wl = wrap_amounts(unit, False)
+            else:
+                wl = [2 ** 32 * upd, (-2 * 2 ** 32 - 1) * upd + 1, (2 ** 64 + 400) * upd, -(2 ** 64) * upd - 1]
+            for a in wl:
+                out.append({unit: a})
+            if t == 0:
+                out.append({unit: BIG10 + 1})
+                out.append({unit: -BIG10})
+        out.append({"days": -BIG10, "nanoseconds": BIG10 * NSD + 1})
+        out.append({"days": BIG10, "hours": -(BIG10 * 24) - 1})
     out += [{"days": 1}, {"days": -1}, {"days": 400, "hours": -1}, {"weeks": 1, "nanoseconds": -1}, {"weeks": -1, "ticks": 1},
             {"hours": 23, "minutes": 59, "seconds": 59, "milliseconds": 999, "ticks": 9999, "nanoseconds": 99},
             {"hours": -23, "minutes": -59, "seconds": -59, "milliseconds": -999, "ticks": -9999, "nanoseconds": -100},
@@ -540,19 +672,24 @@ def pcls(comp):
     if big:
         # one class per unit of the largest time component: huge amounts share their cause whatever they are paired with
         k = max(big, key=lambda k: abs(comp[k]) * M.UNIT_NS[k])
-        return "beyond-2^63:%s" % k
+        cc = carry_class(comp[k] * M.UNIT_NS[k])
+        return "beyond-2^63%s:%s" % ("," + cc if cc else "", k)
     signs = "".join("-" if comp[k] < 0 else "+" for k in names)
     return "%s;%s" % ("+".join(names), signs)
 
 
-def check_ldt_period(acc, cal_id, day, t, comp, aliases=True):
+def check_ldt_period(acc, cal_id, day, t, comp, aliases=True, kw=True):
     cal = CalendarSystem.for_id(cal_id)
     lo, hi, _ = cal_range(cal_id)
     x = mk_ldt(cal, day, t)
     p = build_period(comp)
     tot = sum(comp.get(k, 0) * M.UNIT_NS[k] for k in TIME_KEYS)
-    case = {"kind": "ldt-period", "cal": cal_id, "day": day, "t": t, "period": comp}
-    for sgn, ops in ((1, (("plus", lambda: x.plus(p)), ("add", lambda: x + p), ("add-static", lambda: LocalDateTime.add(x, p)))),
+    case = {"kind": "ldt-period", "cal": cal_id, "day": day, "t": t, "period": comp_enc(comp)}
+    ctxt = comp_txt(comp)
+    plus_ops = [("plus", lambda: x.plus(p)), ("add", lambda: x + p), ("add-static", lambda: LocalDateTime.add(x, p))]
+    if aliases and kw:
+        plus_ops += [("add-static(keyword)", f) for f in kwf(acc, "LocalDateTime.add", x, p)] + [("plus(keyword)", f) for f in kwf(acc, "LocalDateTime.plus", p, obj=x)]
+    for sgn, ops in ((1, plus_ops),
                      (-1, (("minus", lambda: x.minus(p)), ("sub", lambda: x - p), ("subtract-static", lambda: LocalDateTime.subtract(x, p))))):
         # date units first-to-last with the library's own LocalDate arithmetic (years, months, weeks, days)
         mid_ok = True
@@ -573,8 +710,8 @@ def check_ldt_period(acc, cal_id, day, t, comp, aliases=True):
         for name, fn in (ops if aliases else ops[:1]):
             # plus / + / add share one key (the spelling is in the text); huge amounts: one key per unit and direction
             key = "C10/ldt/period-%s/%s" % (ops[0][0], pc if pc.startswith("beyond") else "%s;%s" % (dcls(cal_id, day), pc))
-            r = expect_ldt(acc, fn, cal_id, base, t, sgn * tot, key, "%s day %d + %d ns %s Period(%r)" % (cal_id, day, t, name, comp), case,
-                           call=("x.plus(p)" if sgn > 0 else "x.minus(p)").replace("p)", "%s)" % _period_src(comp)), mid_ok=mid_ok, day0=day, flat=pc.startswith("beyond"))
+            r = expect_ldt(acc, fn, cal_id, base, t, sgn * tot, key, "%s day %d + %d ns %s Period(%s)" % (cal_id, day, t, name, ctxt), case,
+                           call=lambda: ("x.plus(p)" if sgn > 0 else "x.minus(p)").replace("p)", "%s)" % _period_src(comp)), mid_ok=mid_ok, day0=day, flat=pc.startswith("beyond"))
             if first is None:
                 first = r
         if tot and not (0 <= t + sgn * tot < NSD):
@@ -596,12 +733,12 @@ def check_ldt_period(acc, cal_id, day, t, comp, aliases=True):
                     acc.outcome("inverse:date-part-leaves-calendar")
             else:
                 if obs_ldt(back) != (day, t, cal_id):
-                    acc.violation(ikey, "(x %s p) %s p != x for x = %s day %d + %d ns, p = %r: got %r" % (
-                        "+" if sgn > 0 else "-", "-" if sgn > 0 else "+", cal_id, day, t, comp, obs_ldt(back)), case)
+                    acc.violation(ikey, "(x %s p) %s p != x for x = %s day %d + %d ns, p = %s: got %r" % (
+                        "+" if sgn > 0 else "-", "-" if sgn > 0 else "+", cal_id, day, t, ctxt, obs_ldt(back)), case)
 
 
 def _period_src(comp):
-    return " + ".join("Period.from_%s(%d)" % (k, v) for k, v in comp.items() if v) or "Period.zero"
+    return " + ".join("Period.from_%s(%s)" % (k, S(v)) for k, v in comp.items() if v) or "Period.zero"
 
 
 @worker
@@ -611,9 +748,10 @@ def w_ldt_period(job):
     for day in days:
         for t in times:
             acc.count(states=1)
-            for comp in period_list(t, level):
-                guarded(acc, "C10/ldt/period", {"kind": "ldt-period", "cal": cal_id, "day": day, "t": t, "period": comp}, check_ldt_period, cal_id, day, t, comp,
-                        aliases=(level != "basic"))
+            for idx, comp in enumerate(period_list(t, level, mid=(dcls(cal_id, day) == "mid"))):
+                # keyword spellings of the aliases on every 8th period of the list (every component kind occurs many times in it)
+                guarded(acc, "C10/ldt/period", {"kind": "ldt-period", "cal": cal_id, "day": day, "t": t, "period": comp_enc(comp)}, check_ldt_period, cal_id, day, t, comp,
+                        aliases=(level != "basic"), kw=(idx % 8 == 0))
     acc.sample({"calendar": cal_id, "level": level, "periods_per_state": len(period_list(0, level)), "example_period": period_list(1, level)[40]})
     return acc, []
 
@@ -738,13 +876,13 @@ def replay(rec):
     elif k == "time-adjuster":
         guarded(acc, "C10/time/adjuster", case, check_adjusters, case["t"])
     elif k == "time-plus":
-        guarded(acc, "C10/time/plus_" + case["unit"], case, check_time_plus, case["t"], case["unit"], case["n"])
+        guarded(acc, "C10/time/plus_" + case["unit"], case, check_time_plus, case["t"], case["unit"], M.dec(case["n"]))
     elif k == "time-mixed" and "ua" in case:
-        guarded(acc, "C10/time/period-mixed", case, check_time_mixed, case["t"], case["ua"], case["na"], case["ub"], case["nb"])
+        guarded(acc, "C10/time/period-mixed", case, check_time_mixed, case["t"], case["ua"], M.dec(case["na"]), case["ub"], M.dec(case["nb"]))
     elif k == "ldt-plus":
-        guarded(acc, "C10/ldt/plus_" + case["unit"], case, check_ldt_plus, case["cal"], case["day"], case["t"], case["unit"], case["n"])
+        guarded(acc, "C10/ldt/plus_" + case["unit"], case, check_ldt_plus, case["cal"], case["day"], case["t"], case["unit"], M.dec(case["n"]), kw=True)
     elif k == "ldt-period":
-        guarded(acc, "C10/ldt/period", case, check_ldt_period, case["cal"], case["day"], case["t"], {a: int(b) for a, b in case["period"].items()})
+        guarded(acc, "C10/ldt/period", case, check_ldt_period, case["cal"], case["day"], case["t"], {a: int(M.dec(b)) for a, b in case["period"].items()})
     else:
         return False
     return rec.get("key") in acc.violations or (bool(acc.violations) and rec.get("key") is None)
